@@ -656,7 +656,8 @@ Section Compile.
             let close := [TText (B "</" ++ name ++ B ">")] in
             let core :=
               if is_void name then open
-              else if beqb name (B "script") && existsb (Ascii.eqb (ascii_of_N 10)) (show_toks bt)
+              else if beqb name (B "script") && (negb debug && existsb (Ascii.eqb (ascii_of_N 10)) (show_toks bt))
+                   (* production only (repair F-C13-a): the debug separators' own line feeds are not script content *)
                    then open ++ [TText nl] ++ bt ++ [TText nl] ++ close
               else if negb (forallb node_inline body) && debug
                    then open ++ sep ++ bt ++ sep ++ close
